@@ -436,6 +436,10 @@ func c13Oracle(g *Gen, n int) {
 			c13Judge(g, c)
 		}
 	}
+	// one honest log, two lookups in one client + another client writing the shared configuration in between
+	for i := 0; i < n/12+1; i++ {
+		c13Judge(g, c13Case{c14StaleFlushScenario(g.Rand, uint64(1+i%9), i%3 != 0), "concurrent/stale-flush"})
+	}
 	// fixed regression: F6' (client restarted at tree#2 of A, shown tree#7 of a fork with A's first two leaf hashes spliced in)
 	c13Judge(g, c13Case{"client.run w=1:7:2:7 h=2 srv=A@2 new=0 look=0:A0 srv=B@7 new=0 look=0:B5 look=0:B5m", "regression/F6prime"})
 	// the recorded known finding (no rollback after a failed reconciliation), minimal form: must keep reproducing
